@@ -797,6 +797,13 @@ func Route(w *load.World, c *core.Collector) {
 											}
 										}
 									}
+								} else if prm, ok := peelToParam(gs.Val).(*ssa.Parameter); ok {
+									// the helper is handed the destination itself: what the caller hashed for it
+									for i, q := range g.Params {
+										if q == prm && i < len(hc.Call.Args) {
+											helperKey = hashKeyOf(hc.Call.Args[i], 0)
+										}
+									}
 								}
 							}
 						}
@@ -966,6 +973,43 @@ func Fanout(w *load.World, c *core.Collector) {
 							for _, r := range *call.Referrers() {
 								if bo, ok := r.(*ssa.BinOp); ok && bo.Op == token.LSS {
 									ranges = true
+								}
+							}
+						}
+					}
+				}
+			}
+		}
+		// the loop may live in a helper that is handed the whole list and a per-shard callback
+		if !ranges {
+			for _, b := range f.Blocks {
+				for _, in := range b.Instrs {
+					call, ok := in.(*ssa.Call)
+					if !ok {
+						continue
+					}
+					h := call.Call.StaticCallee()
+					if h == nil || !ssax.InModule(h) || len(h.Blocks) == 0 {
+						continue
+					}
+					for ai, a := range call.Call.Args {
+						if _, isSlice := a.(*ssa.Slice); isSlice || ai >= len(h.Params) {
+							continue
+						}
+						if p, _ := ssax.Path(a); !strings.HasSuffix(strings.TrimSuffix(p, "*"), ".ShardIds") {
+							continue
+						}
+						prm := h.Params[ai]
+						for _, r := range *prm.Referrers() {
+							lc, ok := r.(*ssa.Call)
+							if !ok {
+								continue
+							}
+							if bi, ok := lc.Call.Value.(*ssa.Builtin); ok && bi.Name() == "len" {
+								for _, rr := range *lc.Referrers() {
+									if bo, ok := rr.(*ssa.BinOp); ok && bo.Op == token.LSS {
+										ranges = true
+									}
 								}
 							}
 						}
@@ -2160,6 +2204,14 @@ func Quota(w *load.World, c *core.Collector) {
 			}
 		}
 	}
+	// the decision may be a helper's verdict: an enumeration value that says "admitted" only on the
+	// helper's own under-quota edge, and the record is written only where the verdict is that value
+	if put != nil && len(under) == 0 {
+		if quotaVerdictGuards(w, lit, put) {
+			c.Add("QUOTA", "collections:put-after-check", core.OK, w.At(put), "", props...)
+			goto afterCollections
+		}
+	}
 	if put == nil || len(under) == 0 || !onlyViaAny(under, put.Block()) {
 		where := w.Position(lit.Pos())
 		if put != nil {
@@ -2169,6 +2221,8 @@ func Quota(w *load.World, c *core.Collector) {
 	} else {
 		c.Add("QUOTA", "collections:put-after-check", core.OK, w.At(put), "", props...)
 	}
+afterCollections:
+
 }
 
 // ---------------------------------------------------------------- LIFECYCLE
@@ -2265,6 +2319,10 @@ func Lifecycle(w *load.World, c *core.Collector) {
 						if p, _ := ssax.Path(call.Call.Args[0]); strings.Contains(p, "shardStore") {
 							del = in
 						}
+					}
+					// a helper that takes the entry out of the registry on every path on which there is one
+					if g := call.Call.StaticCallee(); g != nil && ssax.InModule(g) && len(g.Blocks) > 0 && unregistersShard(g) {
+						del = in
 					}
 				}
 			}
@@ -2452,6 +2510,11 @@ func RetryLoop(w *load.World, c *core.Collector) {
 						if one, isC := ssax.ConstInt(bo.Y); isC && one == 1 {
 							given = true
 						}
+					}
+					// a loop without a post statement that counts attempts explicitly: on this edge the
+					// counter comes back as it was
+					if ip.Edges[i] == ssa.Value(ip) && ip.Block() == b && len(intPhis) == 1 {
+						given = true
 					}
 				}
 				if !given {
@@ -4014,6 +4077,7 @@ func updateFromStored(w *load.World, c *core.Collector) {
 		// a helper of the package that reads and decodes the record under a key it is given stands for
 		// the Get and the Unmarshal: its first result is the stored record, decoded
 		helperGets := map[*ssa.Call]ssa.Value{} // call -> the key argument
+		helperDst := map[*ssa.Call]*ssa.Alloc{} // call -> the cell it decodes into, when that is how it hands the record back
 		for _, b := range f.Blocks {
 			for _, in := range b.Instrs {
 				call, ok := in.(*ssa.Call)
@@ -4024,8 +4088,17 @@ func updateFromStored(w *load.World, c *core.Collector) {
 				if h == nil || !ssax.InModule(h) || len(h.Blocks) == 0 || load.PkgPath(h) != load.PkgPath(f) {
 					continue
 				}
-				if ki := decodingReader(h, isBucketCall); ki >= 0 && ki < len(call.Call.Args) {
+				if ki, di := decodingReader2(h, isBucketCall); ki >= 0 && ki < len(call.Call.Args) {
 					helperGets[call] = call.Call.Args[ki]
+					if di >= 0 && di < len(call.Call.Args) {
+						dst := call.Call.Args[di]
+						if mi, ok := dst.(*ssa.MakeInterface); ok {
+							dst = mi.X
+						}
+						if al, ok := dst.(*ssa.Alloc); ok {
+							helperDst[call] = al
+						}
+					}
 				}
 			}
 		}
@@ -4060,7 +4133,17 @@ func updateFromStored(w *load.World, c *core.Collector) {
 						ex, ok := v.(*ssa.Extract)
 						return ok && ex.Index == 0 && ex.Tuple == ssa.Value(hget)
 					}
-					if cell, ok := src.(*ssa.Alloc); ok {
+					if cell, ok := src.(*ssa.Alloc); ok && helperDst[hget] == cell {
+						// decoded in place by the helper: nothing else may assign the whole record
+						okFlow = true
+						for _, r := range *cell.Referrers() {
+							if st, ok := r.(*ssa.Store); ok && st.Addr == ssa.Value(cell) {
+								if _, isZero := st.Val.(*ssa.Const); !isZero {
+									okFlow = false
+								}
+							}
+						}
+					} else if cell, ok := src.(*ssa.Alloc); ok {
 						nStores, good := 0, true
 						for _, r := range *cell.Referrers() {
 							if st, ok := r.(*ssa.Store); ok && st.Addr == ssa.Value(cell) {
@@ -4195,6 +4278,58 @@ func sameConcat(a, b ssa.Value) bool {
 // it into a cell and returns that cell as its first result on every successful return: the index
 // of the key parameter, or -1.
 func decodingReader(h *ssa.Function, isBucketCall func(*ssa.Call, string) bool) int {
+	ki, _ := decodingReader2(h, isBucketCall)
+	return ki
+}
+
+// decodingReader2: like decodingReader, and also the form that decodes into a destination the
+// caller passes (then di is the index of that parameter and nothing need be returned).
+func decodingReader2(h *ssa.Function, isBucketCall func(*ssa.Call, string) bool) (ki, di int) {
+	di = -1
+	var get *ssa.Call
+	for _, b := range h.Blocks {
+		for _, in := range b.Instrs {
+			if call, ok := in.(*ssa.Call); ok && isBucketCall(call, "Get") && len(call.Call.Args) == 1 {
+				get = call
+			}
+		}
+	}
+	if get == nil {
+		return -1, -1
+	}
+	ki = -1
+	for i, p := range h.Params {
+		if get.Call.Args[0] == ssa.Value(p) {
+			ki = i
+		}
+	}
+	if ki < 0 {
+		return -1, -1
+	}
+	for _, b := range h.Blocks {
+		for _, in := range b.Instrs {
+			uc, ok := in.(*ssa.Call)
+			if !ok || uc.Call.StaticCallee() == nil || !strings.Contains(uc.Call.StaticCallee().Name(), "Unmarshal") || len(uc.Call.Args) < 2 || uc.Call.Args[0] != ssa.Value(get) {
+				continue
+			}
+			dst := uc.Call.Args[1]
+			if mi, ok := dst.(*ssa.MakeInterface); ok {
+				dst = mi.X
+			}
+			for i, p := range h.Params {
+				if dst == ssa.Value(p) {
+					di = i
+				}
+			}
+		}
+	}
+	if di >= 0 {
+		return ki, di
+	}
+	return decodingReader1(h, isBucketCall), -1
+}
+
+func decodingReader1(h *ssa.Function, isBucketCall func(*ssa.Call, string) bool) int {
 	var get *ssa.Call
 	for _, b := range h.Blocks {
 		for _, in := range b.Instrs {
@@ -4247,4 +4382,208 @@ func decodingReader(h *ssa.Function, isBucketCall func(*ssa.Call, string) bool) 
 		}
 	}
 	return ki
+}
+
+// unregistersShard: h deletes from the shard registry on every path to a return, except paths on
+// which a comma-ok lookup in the registry said there is no entry.
+func unregistersShard(h *ssa.Function) bool {
+	var delBlock *ssa.BasicBlock
+	var noEntry []ssax.Edge
+	for _, b := range h.Blocks {
+		for _, in := range b.Instrs {
+			if call, ok := in.(*ssa.Call); ok {
+				if bi, ok := call.Call.Value.(*ssa.Builtin); ok && bi.Name() == "delete" {
+					if p, _ := ssax.Path(call.Call.Args[0]); strings.Contains(p, "shardStore") {
+						delBlock = b
+					}
+				}
+			}
+		}
+		if ifi, ok := b.Instrs[len(b.Instrs)-1].(*ssa.If); ok {
+			cond, neg := ifi.Cond, false
+			if u, ok := cond.(*ssa.UnOp); ok && u.Op == token.NOT {
+				cond, neg = u.X, true
+			}
+			if ex, ok := cond.(*ssa.Extract); ok && ex.Index == 1 {
+				if lk, ok := ex.Tuple.(*ssa.Lookup); ok {
+					if p, _ := ssax.Path(lk.X); strings.Contains(p, "shardStore") {
+						s := 1
+						if neg {
+							s = 0
+						}
+						noEntry = append(noEntry, ssax.Edge{From: b, Succ: s})
+					}
+				}
+			}
+		}
+	}
+	if delBlock == nil {
+		return false
+	}
+	for _, b := range h.Blocks {
+		if _, ok := b.Instrs[len(b.Instrs)-1].(*ssa.Return); !ok || b == delBlock {
+			continue
+		}
+		// reachable from the entry without the delete?
+		seen := map[*ssa.BasicBlock]bool{delBlock: true}
+		var dfs func(x *ssa.BasicBlock) bool
+		dfs = func(x *ssa.BasicBlock) bool {
+			if x == b {
+				return true
+			}
+			if seen[x] {
+				return false
+			}
+			seen[x] = true
+			for _, s := range x.Succs {
+				if dfs(s) {
+					return true
+				}
+			}
+			return false
+		}
+		if dfs(h.Blocks[0]) && !onlyViaAny(noEntry, b) {
+			return false
+		}
+	}
+	return true
+}
+
+// quotaVerdictGuards: lit calls a helper that returns an integer verdict; the helper returns the
+// value(s) it returns on its under-quota edge nowhere else (errors aside), and put runs only where
+// the verdict is such a value (tested for equality with it, or after every other verdict the
+// helper can return has been excluded).
+func quotaVerdictGuards(w *load.World, lit *ssa.Function, put *ssa.Call) bool {
+	for _, b := range lit.Blocks {
+		for _, in := range b.Instrs {
+			call, ok := in.(*ssa.Call)
+			if !ok {
+				continue
+			}
+			h := call.Call.StaticCallee()
+			if h == nil || !ssax.InModule(h) || len(h.Blocks) == 0 || h.Signature.Results().Len() < 1 {
+				continue
+			}
+			if bt, ok := h.Signature.Results().At(0).Type().Underlying().(*types.Basic); !ok || bt.Info()&types.IsInteger == 0 {
+				continue
+			}
+			// under-quota edges inside the helper
+			var under []ssax.Edge
+			for _, hb := range h.Blocks {
+				ifi, ok := hb.Instrs[len(hb.Instrs)-1].(*ssa.If)
+				if !ok {
+					continue
+				}
+				bo, ok := ifi.Cond.(*ssa.BinOp)
+				if !ok {
+					continue
+				}
+				xm, ym := deepHas(w, bo.X, "field:MaxCollections"), deepHas(w, bo.Y, "field:MaxCollections")
+				if !xm && !ym {
+					continue
+				}
+				switch bo.Op {
+				case token.GEQ, token.GTR:
+					if ym {
+						under = append(under, ssax.Edge{From: hb, Succ: 1})
+					} else {
+						under = append(under, ssax.Edge{From: hb, Succ: 0})
+					}
+				case token.LSS, token.LEQ:
+					if ym {
+						under = append(under, ssax.Edge{From: hb, Succ: 0})
+					} else {
+						under = append(under, ssax.Edge{From: hb, Succ: 1})
+					}
+				}
+			}
+			if len(under) == 0 {
+				continue
+			}
+			admit, refuse := map[int64]bool{}, map[int64]bool{}
+			okShape := true
+			for _, hb := range h.Blocks {
+				ret, ok := hb.Instrs[len(hb.Instrs)-1].(*ssa.Return)
+				if !ok {
+					continue
+				}
+				if n := len(ret.Results); n >= 2 && nonNilError(ret.Results[n-1], hb) {
+					continue
+				}
+				k, isC := ssax.ConstInt(ret.Results[0])
+				if !isC {
+					okShape = false
+					continue
+				}
+				if onlyViaAny(under, hb) {
+					admit[k] = true
+				} else {
+					refuse[k] = true
+				}
+			}
+			for k := range admit {
+				if refuse[k] {
+					okShape = false
+				}
+			}
+			if !okShape || len(admit) == 0 {
+				continue
+			}
+			var verdict ssa.Value = call
+			if _, isTuple := call.Type().(*types.Tuple); isTuple {
+				for _, r := range *call.Referrers() {
+					if ex, ok := r.(*ssa.Extract); ok && ex.Index == 0 {
+						verdict = ex
+					}
+				}
+			}
+			// tests of the verdict in lit
+			var admitEdges []ssax.Edge
+			excluded := map[int64][]ssax.Edge{}
+			for _, lb := range lit.Blocks {
+				ifi, ok := lb.Instrs[len(lb.Instrs)-1].(*ssa.If)
+				if !ok {
+					continue
+				}
+				bo, ok := ifi.Cond.(*ssa.BinOp)
+				if !ok || (bo.Op != token.EQL && bo.Op != token.NEQ) {
+					continue
+				}
+				var k int64
+				var isC bool
+				switch {
+				case bo.X == verdict:
+					k, isC = ssax.ConstInt(bo.Y)
+				case bo.Y == verdict:
+					k, isC = ssax.ConstInt(bo.X)
+				}
+				if !isC {
+					continue
+				}
+				eq, ne := 0, 1
+				if bo.Op == token.NEQ {
+					eq, ne = 1, 0
+				}
+				if admit[k] {
+					admitEdges = append(admitEdges, ssax.Edge{From: lb, Succ: eq})
+				}
+				if refuse[k] {
+					excluded[k] = append(excluded[k], ssax.Edge{From: lb, Succ: ne})
+				}
+			}
+			if len(admitEdges) > 0 && onlyViaAny(admitEdges, put.Block()) {
+				return true
+			}
+			all := len(refuse) > 0
+			for k := range refuse {
+				if len(excluded[k]) == 0 || !onlyViaAny(excluded[k], put.Block()) {
+					all = false
+				}
+			}
+			if all {
+				return true
+			}
+		}
+	}
+	return false
 }
